@@ -521,6 +521,19 @@ def do_check(prop, P, tier, seed):
                 m = re.search(r'(heap-buffer-overflow|stack-buffer-overflow|global-buffer-overflow|heap-use-after-free|allocation-size-too-big|out-of-memory|requested allocation size|SEGV|runtime error: [^|]{0,80}|leak|data race)', summ)
                 fl['key'] = 'sanitizer|' + (m.group(1) if m else 'other')
             failures.append((j, fl))
+        if j.rc == 77 and not f.get('failures'):
+            # LeakSanitizer reports at process exit, after the report was written: attribute the leak to the unit as a whole
+            try:
+                logtxt = open(j.log, errors='replace').read()
+            except OSError:
+                logtxt = ''
+            if 'LeakSanitizer: detected memory leaks' in logtxt:
+                m = re.search(r'(Direct leak of[^\n]*\n(?:\s+#\d[^\n]*\n){1,8})', logtxt)
+                frames = ' | '.join(x.strip() for x in (m.group(1).splitlines() if m else [])[:6])
+                frames = re.sub(r'0x[0-9a-f]+ ', '', frames)
+                leak_fail = dict(message='memory-leak: LeakSanitizer reported a leak at the end of unit %s :: %s' % (j.unit, frames[:900]), case='', key='sanitizer|leak', leaklog=j.log)
+                failures.append((j, leak_fail))
+                continue
         if j.rc not in (0, 1, 77) and not f.get('failures'):
             incomplete.append('%s: rc=%s without a recorded failure (log %s)' % (j.unit, j.rc, j.log))
         if f.get('status') == 'sanitizer-abort' and not f.get('failures'):
@@ -538,6 +551,11 @@ def do_check(prop, P, tier, seed):
             continue
         seen_keys.add(k)
         path = write_replay(prop, j.target, fl)
+        if fl.get('leaklog'):
+            # not re-executable as a single case: the kept artefact is the sanitizer log of the unit
+            shutil.copy(fl['leaklog'], path)
+            violations.append((path, fl))
+            continue
         if P.get('no_replay'):
             results = ['fail'] * 3
         else:
